@@ -36,7 +36,10 @@ impl RustDocument {
     pub fn extend(&mut self, other: RustDocument) {
         #[cfg(feature = "verif")]
         let (verif_overwritten, verif_from_nodes) = (crate::verif::merge_overwrites(self, &other), other.nodes.len());
-        self.namespace_lookup.extend(other.namespace_lookup);
+        // the importing document keeps its own prefix bindings; only prefixes it does not know are taken over
+        for (prefix, namespace) in other.namespace_lookup {
+            self.namespace_lookup.entry(prefix).or_insert(namespace);
+        }
 
         extend_no_duplicates(&mut self.namespaces, other.namespaces);
         extend_no_duplicates(&mut self.target_namespaces, other.target_namespaces);
